@@ -77,6 +77,169 @@ def path_summary(fn, path, owned_self=False):
     return (tuple(conds), tuple(calls), outcome)
 
 
+GM = ('Osu', 'Taiko', 'Catch', 'Mania')
+UNK = ('?',)
+
+
+def aeval(v, st, depth=0):
+    """value of a guard tree in the abstract state st = {mode, target, is_convert}; UNK when not evaluable"""
+    if depth > 30:
+        return UNK
+    k = v[0]
+    if k == 'param':
+        return st['target'] if v[1] == 2 else UNK
+    if k == 'field':
+        base = v[1]
+        if base == ('param', 1):
+            return st.get(v[2], UNK)
+        b = aeval(base, st, depth + 1)
+        if isinstance(b, dict) and v[2] in b:
+            return b[v[2]]
+        if isinstance(b, tuple) and b is not UNK and str(v[2]).isdigit() and int(v[2]) < len(b):
+            return b[int(v[2])]
+        return UNK
+    if k == 'agg':
+        if v[1] == 'adt' and v[2].endswith('GameMode') and not v[4]:
+            return v[3]
+        if v[1] == 'tuple':
+            items = v[-1]
+            vals = [aeval(x, st, depth + 1) for x in (items.values() if isinstance(items, dict) else items)]
+            return {str(i): x for i, x in enumerate(vals)}
+        return UNK
+    if k == 'discr':
+        return aeval(v[1], st, depth + 1)
+    if k == 'const':
+        c = prov.const_val(v)
+        return {'true': True, 'false': False}.get(c, c)
+    if k == 'call':
+        name = v[1].get('name')
+        if name in ('eq', 'ne') and len(v[2]) == 2:
+            a, b = aeval(v[2][0], st, depth + 1), aeval(v[2][1], st, depth + 1)
+            if a is UNK or b is UNK:
+                return UNK
+            return (a == b) if name == 'eq' else (a != b)
+        if name in ('deref', 'clone', 'borrow', 'as_ref', 'from', 'into') and len(v[2]) == 1:
+            return aeval(v[2][0], st, depth + 1)
+        return UNK
+    if k == 'binop' and v[1] in ('Eq', 'Ne'):
+        a, b = aeval(v[2], st, depth + 1), aeval(v[3], st, depth + 1)
+        if a is UNK or b is UNK:
+            return UNK
+        a, b = (GM.index(x) if x in GM else x for x in (a, b))
+        try:
+            a, b = int(a), int(b)
+        except (TypeError, ValueError):
+            pass
+        return (a == b) if v[1] == 'Eq' else (a != b)
+    if k == 'unop' and v[1] == 'Not':
+        a = aeval(v[2], st, depth + 1)
+        return UNK if a is UNK else (not a)
+    if k == 'cast':
+        return aeval(v[-1] if isinstance(v[-1], tuple) else v[1], st, depth + 1)
+    if k == 'phi':
+        vals = [aeval(a, st, depth + 1) for a in v[1]]
+        if vals and all(x == vals[0] and x is not UNK for x in vals):
+            return vals[0]
+        return UNK
+    return UNK
+
+
+def label_matches(val, lab, kind):
+    if val is UNK:
+        return None
+    if kind == 'bool':
+        return bool(val) == (lab == 'true')
+    if kind == 'enum':
+        return val in lab.split('|')
+    if isinstance(val, bool):
+        val = int(val)
+    if val in GM:
+        val = GM.index(val)
+    return str(val) == str(lab)
+
+
+def decide(fn, st):
+    """walk fn's CFG in abstract state st: (converter calls, outcome) or None when a guard cannot be evaluated"""
+    P = prov.prov_of(fn)
+    bb, blocks, calls, steps = 0, [], [], 0
+    while True:
+        steps += 1
+        if steps > 400:
+            return None
+        b = fn.blocks[bb]
+        t = b['t']
+        k = t['k']
+        blocks.append(bb)
+        if k == 'return':
+            break
+        if k == 'unreachable':
+            return (tuple(calls), 'unreachable')
+        if k == 'switch':
+            info = arms.switch_info(fn, bb)
+            val = aeval(info['cond'], st)
+            nxt = None
+            other = None
+            for lab, tgt in info['edges']:
+                if lab == '_':
+                    other = tgt
+                    continue
+                m = label_matches(val, lab, info['kind'])
+                if m is None:
+                    return None
+                if m:
+                    nxt = tgt
+                    break
+            if nxt is None:
+                nxt = other
+            if nxt is None:
+                return None
+            bb = nxt
+            continue
+        if k == 'call':
+            p = callee_path(t)
+            if t['func'].get('local') and re.search(r'::convert$', p):
+                args = [prov.strip(a) for a in P.call_args(bb)]
+                shown = []
+                for a in args:
+                    if a[0] == 'call' and a[1].get('name') in ('to_owned', 'clone'):
+                        a = prov.strip(a[2][0])
+                    shown.append(prov.show(a, maxdepth=3))
+                calls.append((p, tuple(shown)))
+            elif t['func'].get('local') and p not in ('model::beatmap::Beatmap::clone',) and t['func'].get('name') not in ('clone', 'to_owned'):
+                calls.append((p, ()))
+            if t.get('target') is None:
+                return (tuple(calls), 'panic')
+            bb = t['target']
+            continue
+        if k in ('goto', 'drop', 'assert'):
+            bb = t['target']
+            continue
+        return None
+    outcome = 'other'
+    done = False
+    for b_ in reversed(blocks):
+        for s_ in reversed(fn.blocks[b_]['s']):
+            if s_['k'] == 'assign' and s_['p']['l'] == 0 and 'proj' not in s_['p']:
+                rv = s_['rv']
+                if rv['k'] == 'agg' and rv.get('ak') == 'adt' and rv['adt'].endswith('Result'):
+                    if rv['variant'] == 'Ok':
+                        outcome = 'Ok'
+                    else:
+                        idx = fn.blocks[b_]['s'].index(s_)
+                        val = P.operand(rv['ops'][0], b_, idx)
+                        val = prov.strip(val)
+                        if val[0] == 'agg' and val[1] == 'adt':
+                            flds = {kk: aeval(x, st) for kk, x in val[4].items()}
+                            outcome = 'Err(%s%s)' % (val[3], '{%s}' % ', '.join('%s: %s' % (kk, flds[kk] if flds[kk] is not UNK else prov.show(val[4][kk], maxdepth=3)) for kk in sorted(flds)) if flds else '')
+                        else:
+                            outcome = 'Err(%s)' % prov.show(val, maxdepth=4)
+                done = True
+                break
+        if done:
+            break
+    return (tuple(calls), outcome)
+
+
 def r1(ctx, F):
     cref = F.method(BM, 'convert_ref', inherent_only=True)
     cmut = F.method(BM, 'convert_mut', inherent_only=True)
@@ -86,28 +249,42 @@ def r1(ctx, F):
         return
     for f in (cref, cmut, conv):
         ctx.saw(f)
-    pr = arms.enumerate_paths(cref)
-    pm = arms.enumerate_paths(cmut)
-    if pr is None or pm is None:
-        ctx.violation('C07-R1', 'convert_ref~convert_mut:shape', 'conversion entry contains a loop or too many paths; '
-                      'decision trees cannot be compared')
-        return
-    sr = {path_summary(cref, p) for p in pr}
-    sm = {path_summary(cmut, p) for p in pm}
-    only_r = sr - sm
-    only_m = sm - sr
-    if not only_r and not only_m:
-        ctx.ok('C07-R1', 'convert_ref~convert_mut', 'identical decision trees: %d paths each (guards, converter per '
-               'GameMode arm, Ok/Err outcome) e.g. %s' % (len(sr), sorted(sr)[0],), cref.where())
+    # the guards of both entries depend on (map mode, target mode, is_convert) only: decide both on all 32 abstract states
+    table = {}
+    undecided = []
+    for mode in GM:
+        for target in GM:
+            for isc in (False, True):
+                st = {'mode': mode, 'target': target, 'is_convert': isc}
+                a, b = decide(cref, st), decide(cmut, st)
+                if a is None or b is None:
+                    undecided.append((mode, target, isc, 'convert_ref' if a is None else 'convert_mut'))
+                else:
+                    table[(mode, target, isc)] = (a, b)
+    if undecided:
+        # fall back to the comparison of the two guard structures as written
+        pr = arms.enumerate_paths(cref)
+        pm = arms.enumerate_paths(cmut)
+        if pr is None or pm is None or {path_summary(cref, p) for p in pr} != {path_summary(cmut, p) for p in pm}:
+            ctx.violation('C07-R1', 'convert_ref~convert_mut:shape', 'a guard of %s depends on something other than (map mode, target mode, is_convert) and the two '
+                          'entries are not written with the same guard structure: their decisions cannot be compared (first state: %s)' % (undecided[0][3], undecided[0][:3],), cref.where())
+        else:
+            ctx.ok('C07-R1', 'convert_ref~convert_mut', 'identical guard structure as written (%d paths each)' % len(pr), cref.where())
     else:
-        for s in sorted(only_r):
-            ctx.violation('C07-R1', 'convert_ref~convert_mut:only-ref:%s' % (s[2],),
-                          'path only in convert_ref: if %s then %s -> %s' % (list(s[0]), list(s[1]), s[2]), cref.where())
-        for s in sorted(only_m):
-            ctx.violation('C07-R1', 'convert_ref~convert_mut:only-mut:%s' % (s[2],),
-                          'path only in convert_mut: if %s then %s -> %s' % (list(s[0]), list(s[1]), s[2]), cmut.where())
-    # guard order as documented: own mode -> Ok; is_convert -> AlreadyConverted; non-osu -> Convert
-    ctx.floor('C07-R1', len(sm), 6, 'decision paths of convert_mut')
+        diff = [(k, v) for k, v in sorted(table.items()) if v[0] != v[1]]
+        outcomes = {v[1] for v in table.values()}
+        if not diff:
+            ctx.ok('C07-R1', 'convert_ref~convert_mut', 'same decision on all 32 states of (map mode, target mode, is_convert): %d distinct outcomes (%s)' % (
+                len(outcomes), sorted({o[1] for o in outcomes})), cref.where())
+        seen_keys = set()
+        for (mode, target, isc), (a, b) in diff:
+            key = 'convert_ref~convert_mut:%s/%s' % (a[1], b[1])
+            if key in seen_keys:
+                continue
+            seen_keys.add(key)
+            ctx.violation('C07-R1', key, 'for a %s map (is_convert=%s) and target %s: convert_ref -> %s %s, convert_mut/convert -> %s %s (%d of 32 states differ)' % (
+                mode, str(isc).lower(), target, a[1], [c[0].split('::')[-3:] for c in a[0]], b[1], [c[0].split('::')[-3:] for c in b[0]], len(diff)), cref.where())
+        ctx.floor('C07-R1', len(outcomes), 6, 'distinct outcomes of convert_mut (3 converters, identity, 2 errors)')
     # Beatmap::convert = convert_mut(self) then Ok(self)
     calls = [(bi, t) for bi, t in conv.calls() if t['func'].get('local')]
     good = len(calls) == 1 and callee_path(calls[0][1]) == 'model::beatmap::Beatmap::convert_mut'
@@ -259,13 +436,19 @@ def arm_mentions(fn, blocks):
 def r3(ctx, F):
     n_arms = 0
     n_fns = set()
-    for fn, bb, info in gamemode_switches(F):
+    all_sw = list(gamemode_switches(F))
+    for fn, bb, info in all_sw:
         ctx.saw(fn)
         for lab, tgt in info['edges']:
             if '|' in lab:
                 continue
             arm = lab.lower()
             reg = arms.region(fn, tgt)
+            # a mention inside a nested GameMode switch belongs to that (innermost) switch, not to this arm
+            for fn2, bb2, info2 in all_sw:
+                if fn2 is fn and bb2 != bb and bb2 in reg:
+                    for _, t2 in info2['edges']:
+                        reg = reg - arms.region(fn, t2)
             # an arm target shared with another arm (e.g. Osu | Catch) is not mode-specific
             shared = [l for l, t2 in info['edges'] if t2 == tgt and l != lab]
             if shared:
